@@ -301,9 +301,13 @@ class Executor:
         current path condition (z3 tactic pipeline, cvc5/z3 binaries on unknown)."""
         t = time.time()
         try:
-            if (FP_SYMBOLIC[0] or self.force_fresh) and self.cur_state is not None:
-                r, m = smt.solve(list(self.cur_state.pc) + list(extra), timeout_ms=timeout_ms or self.solver_timeout_ms,
-                                 model_vars=[v for _, v in self.cur_state.inputs] if want_model else None)
+            # the incremental solver is used as long as no floating-point term is part of the query: FP values that only
+            # flow into events (never into a branch condition) do not force the slow fresh-solver route
+            need_fresh = self.force_fresh or (FP_SYMBOLIC[0] and self.cur_state is not None and (
+                any(smt.has_fp(c) for c in extra) or any(smt.has_fp(c) for c in self.cur_state.pc)))
+            if need_fresh and self.cur_state is not None:
+                r, m = smt.solve_sliced(list(self.cur_state.pc), list(extra), timeout_ms=timeout_ms or self.solver_timeout_ms,
+                                        model_vars=[v for _, v in self.cur_state.inputs] if want_model else None)
                 return r, m
             self.solver.push()
             try:
@@ -1488,23 +1492,42 @@ def install_default_handlers(ex: Executor):
 
     def h_pulse(ex, st, args, ins):
         pin = ex.concretize(st, args[0])
-        v = ex.new_input(st, "pulse", pin, 64, 0, (1 << 31) - 1)
+        # contract of pulseIn(pin, state, timeout): 0 when no complete pulse was seen within the timeout, otherwise the
+        # pulse length in microseconds, which cannot exceed the timeout (one loop budget covers waiting and measuring)
+        hi = (1 << 31) - 1
+        if len(args) > 2 and args[2].concrete and 0 < args[2].v <= hi:
+            hi = args[2].v
+        v = ex.new_input(st, "pulse", pin, 64, 0, hi)
         st.events.append(("pulseIn", args[0], args[1], v))
         # pulseIn blocks: at least the echo time, or the whole timeout when it returns 0
         tmo = args[2].z() if len(args) > 2 else z3.BitVecVal(1000000, 64)
         thousand = z3.BitVecVal(1000, 64)
-        elapsed_ms = z3.If(v.v == z3.BitVecVal(0, 64), z3.UDiv(tmo, thousand), z3.UDiv(v.v, thousand))
+        # the quotient is computed on 32 bits (v < 2^31): the bit-blasted 64-bit divider dominated every query
+        v_ms = z3.ZeroExt(32, z3.UDiv(z3.Extract(31, 0, v.v), z3.BitVecVal(1000, 32)))
+        elapsed_ms = z3.If(v.v == z3.BitVecVal(0, 64), z3.UDiv(tmo, thousand), v_ms)
         st.clock_pending = _clock_add(st.clock_pending, BV(64, simp(elapsed_ms)))
         return v
     H["_Z7pulseInhhm"] = h_pulse
 
     def h_millis(ex, st, args, ins):
-        v = ex.new_input(st, "millis", 0, 64, 0, (1 << 40))
-        base = st.clock_last if st.clock_last is not None else 0
-        lower = _clock_add(base, st.clock_pending)
-        if not (isinstance(lower, int) and lower == 0):
-            lz = z3.BitVecVal(lower, 64) if isinstance(lower, int) else lower
-            ex.assume(st, z3.UGE(v.v, lz))
+        """Default: a non-decreasing clock below 2^40 ms.  With CLOCK_WRAP the millisecond clock is a free-running
+        modular counter: the first reading is arbitrary (the sketch may have been up for any time - the counter wraps),
+        every later reading is the previous one plus the delays executed since plus an arbitrary extra < 2^32 ms,
+        modulo 2^64 (the mock's `unsigned long`)."""
+        if CLOCK_WRAP[0]:
+            v = ex.new_input(st, "millis", 0, 64)
+            if st.clock_last is not None:
+                gap = ex.new_input(st, "millisgap", 0, 64, 0, (1 << 32) - 1)
+                lower = _clock_add(st.clock_last, st.clock_pending)
+                lz = z3.BitVecVal(lower & ((1 << 64) - 1), 64) if isinstance(lower, int) else lower
+                ex.assume(st, v.v == lz + gap.v)
+        else:
+            v = ex.new_input(st, "millis", 0, 64, 0, (1 << 40))
+            base = st.clock_last if st.clock_last is not None else 0
+            lower = _clock_add(base, st.clock_pending)
+            if not (isinstance(lower, int) and lower == 0):
+                lz = z3.BitVecVal(lower, 64) if isinstance(lower, int) else lower
+                ex.assume(st, z3.UGE(v.v, lz))
         st.clock_last = v.v
         st.clock_pending = 0
         st.events.append(("millis", v))
@@ -1659,6 +1682,9 @@ def install_default_handlers(ex: Executor):
         st.events.append(("observe",) + tuple(a))
     H["__sym_observe_i"] = h_observe
     H["__sym_observe_f"] = h_observe
+
+
+CLOCK_WRAP = [False]
 
 
 def _clock_add(a, d):
